@@ -26,7 +26,8 @@ Init0 == [owner |-> 0, depth |-> 0, busy |-> [t \in Ts |-> FALSE], count |-> 0, 
           seen |-> [t \in Ts |-> FALSE], dirty |-> [t \in Ts |-> FALSE], sets |-> 0, okWaits |-> 0, ends |-> {},
           prim |-> "none", sdirty |-> [t \in Ts |-> FALSE], mdirty |-> [t \in Ts |-> FALSE], clk |-> 0,
           callAt |-> [t \in Ts |-> 0], lockAt |-> [t \in Ts |-> 0], dmAt |-> 0, ds |-> FALSE, dm |-> FALSE, lateTO |-> FALSE, sigRet |-> 0, succ |-> 0, init |-> 0,
-          f |-> [t \in Ts |-> "none"], t0 |-> [t \in Ts |-> 0], ms |-> [t \in Ts |-> 0], saved |-> [t \in Ts |-> 0]]
+          f |-> [t \in Ts |-> "none"], t0 |-> [t \in Ts |-> 0], ms |-> [t \in Ts |-> 0], saved |-> [t \in Ts |-> 0],
+          exp |-> [t \in Ts |-> -1]]      \* exp[t]: the result of the function t's Thread object was (successfully) started with
 
 Pending(s, fs) == { u \in Ts : s.f[u] \in fs }
 Begin(s, t, f, ev) == [s EXCEPT !.f[t] = f, !.t0[t] = ev.now, !.ms[t] = ev.ms, !.clk = s.clk + 1, !.callAt[t] = s.clk + 1]
@@ -79,7 +80,10 @@ Ret(ev, s) ==
               ELSE IF ev.r = 1 THEN (IF s.okWaits + 1 <= s.sets THEN { [e EXCEPT !.owner = t, !.depth = s.saved[t], !.okWaits = s.okWaits + 1, !.dm = FALSE, !.lateTO = FALSE,
                                                                                        !.mdirty = [u \in Ts |-> s.mdirty[u] \/ s.f[u] = "mset"]] } ELSE {})
               ELSE IF f = "mtwait" /\ Expired(s, t, ev) THEN { [e EXCEPT !.owner = t, !.depth = s.saved[t]] } ELSE {}
-         [] f = "join" -> IF ev.r \in s.ends THEN { e } ELSE {}           \* the function's result, after it has finished
+         \* join: the result of the function the thread was started with, after it has finished; a second start() on a
+         \* Thread that has not been joined fails (and leaves the running thread alone)
+         [] f = "join" -> IF ev.r \in s.ends /\ (s.exp[t] = -1 \/ ev.r = s.exp[t]) THEN { e } ELSE {}
+         [] f = "restart" -> IF ev.r = 0 THEN { e } ELSE {}
          [] OTHER -> { e }
 
 \* the instant a timed wait of thread t gives up although the thread could have been released
@@ -98,9 +102,10 @@ Step(ev, s) ==
     [] ev.op = "timeout" -> Timeout(ev, s)
     \* the end: a Monitor set() that stayed unconsumed although a waiter gave up after it had returned released nobody
     [] ev.op = "end" -> IF ev.verdict = "done" /\ s.dm /\ s.lateTO THEN {} ELSE { s }
-    [] ev.op \in {"call", "ret"} /\ ev.f \in {"msetloop", "mdone", "start"} -> { s }     \* harness-level steps
+    [] ev.op \in {"call", "ret"} /\ ev.f \in {"msetloop", "mdone", "start", "mstart"} -> { s }     \* harness-level steps
     [] ev.op = "call" -> Call(ev, s)
     [] ev.op = "ret" -> Ret(ev, s)
     [] ev.op = "proc_end" -> { [s EXCEPT !.ends = @ \cup {ev.v}] }
+    [] ev.op = "started" -> { [s EXCEPT !.exp[ev.t] = ev.v] }
     [] OTHER -> { s }
 ================================================================================
